@@ -118,12 +118,12 @@ hasher folds the case of names inside RDATA) but different signed RDATA (`B.` vs
 is answered Secure from the cache although the signature does not cover it. -/
 theorem counterexample_cache_key_case :
     (runHistoryPreFix (acceptOnly [recN 66]) {} []
-        [⟨[7], [(key0, .secure)], sig0, nameA, 1, [recN 66], 1000, 0, false⟩,
-         ⟨[7], [(key0, .secure)], sig0, nameA, 1, [recN 98], 1000, 0, false⟩]).map
+        [⟨[7], [(key0, .secure)], sig0, nameA, 1, [recN 66], 1000, 0, false, false⟩,
+         ⟨[7], [(key0, .secure)], sig0, nameA, 1, [recN 98], 1000, 0, false, false⟩]).map
         (fun o => (o.1.proof, o.2))
       = [(.secure, true), (.secure, false)] ∧
     (freshVerdict (acceptOnly [recN 66])
-      ⟨[7], [(key0, .secure)], sig0, nameA, 1, [recN 98], 1000, 0, false⟩).proof = .bogus := by
+      ⟨[7], [(key0, .secure)], sig0, nameA, 1, [recN 98], 1000, 0, false, false⟩).proof = .bogus := by
   decide
 
 /-- the hypotheses of `cache_sound_partial` are satisfiable by a non-trivial history (second request
